@@ -14,6 +14,9 @@ supplied deny list / table.
 -/
 import ParanoidModel.Proofs.ClosedForm
 import ParanoidModel.Proofs.BsgsChecks
+import Mathlib.Tactic.Linarith
+import Mathlib.Tactic.Ring
+import Mathlib.Tactic.NormNum
 namespace Paranoid.C06
 open Paranoid Paranoid.Consts
 
@@ -163,7 +166,7 @@ theorem keypair_step (table : List (Nat × List Nat)) (n : Nat)
     (hbits : 64 ≤ bitLength n)
     (htab : table.lookup (n >>> (bitLength n - 64)) = some metadata)
     (hseed : seedFromMeta metadata = .ok seed)
-    (heven : bitLength n % 2 = 0)
+    (heven : keypairSizeOk (bitLength n) = true)
     (hgen : gen seed (bitLength n) = (p, q)) (hpq : p * q = n) :
     keypairStep table n gen = .ok (true, [p, q]) := by
   have hm : keypairMsb n = .ok (n >>> (bitLength n - 64)) := by
@@ -195,20 +198,35 @@ theorem keypair_wrong_product (table : List (Nat × List Nat)) (n : Nat)
 generator multiplies two primes of `bits / 2` bits, whose product never has an odd size — and the
 generator is not consulted for it: the verdict is the same for EVERY oracle, in particular for
 the real `generate_key`, which does not return for an odd size. -/
-theorem keypair_odd_size (table : List (Nat × List Nat)) (n : Nat)
+theorem keypair_unsupported_size (table : List (Nat × List Nat)) (n : Nat)
     (gen : List Nat → Nat → Nat × Nat) (hbits : 64 ≤ bitLength n)
-    (hodd : bitLength n % 2 = 1) :
+    (hsz : keypairSizeOk (bitLength n) = false) :
     keypairStep table n gen = .ok (false, []) := by
   have hm : keypairMsb n = .ok (n >>> (bitLength n - 64)) := by
     simp [keypairMsb, Nat.not_lt.2 hbits]
-  cases htab : table.lookup (n >>> (bitLength n - 64)) <;> simp [keypairStep, hm, htab, hodd]
+  cases htab : table.lookup (n >>> (bitLength n - 64)) <;> simp [keypairStep, hm, htab, hsz]
 
-/-- the generator oracle is consulted for even sizes only: two oracles that agree on every even
-size give the same verdict on every modulus (so the totality statements never rely on
-`generate_key(odd)` returning). -/
-theorem keypair_gen_even_only (table : List (Nat × List Nat)) (n : Nat)
+theorem keypair_odd_size (table : List (Nat × List Nat)) (n : Nat)
+    (gen : List Nat → Nat → Nat × Nat) (hbits : 64 ≤ bitLength n)
+    (hodd : bitLength n % 2 = 1) :
+    keypairStep table n gen = .ok (false, []) :=
+  keypair_unsupported_size table n gen hbits (by simp [keypairSizeOk, hodd])
+
+/-- an even size whose primes would have three or more forced zero bits (`(bits/2) % 8 ≥ 3`, e.g.
+2046, 2044, 2040 bits) is never flagged either, and the generator is not consulted. -/
+theorem keypair_short_prime_size (table : List (Nat × List Nat)) (n : Nat)
+    (gen : List Nat → Nat → Nat × Nat) (hbits : 64 ≤ bitLength n)
+    (h3 : 3 ≤ (bitLength n / 2) % 8) :
+    keypairStep table n gen = .ok (false, []) :=
+  keypair_unsupported_size table n gen hbits (by
+    simp only [keypairSizeOk, Bool.and_eq_false_imp, decide_eq_false_iff_not]; omega)
+
+/-- the generator oracle is consulted for supported sizes only: two oracles that agree on every
+size with `keypairSizeOk` give the same verdict on every modulus (so the totality statements never
+rely on `generate_key` returning for a size it cannot produce). -/
+theorem keypair_gen_supported_only (table : List (Nat × List Nat)) (n : Nat)
     (gen gen' : List Nat → Nat → Nat × Nat)
-    (h : ∀ seed bits, bits % 2 = 0 → gen seed bits = gen' seed bits) :
+    (h : ∀ seed bits, keypairSizeOk bits = true → gen seed bits = gen' seed bits) :
     keypairStep table n gen = keypairStep table n gen' := by
   unfold keypairStep
   split
@@ -218,11 +236,18 @@ theorem keypair_gen_even_only (table : List (Nat × List Nat)) (n : Nat)
     · split
       · rfl
       · rename_i hev
-        have hev' : bitLength n % 2 = 0 := by omega
+        have hev' : keypairSizeOk (bitLength n) = true := by simpa using hev
         split
         · rfl
         · rename_i seed _
           rw [h seed _ hev']
+
+theorem keypair_gen_even_only (table : List (Nat × List Nat)) (n : Nat)
+    (gen gen' : List Nat → Nat → Nat × Nat)
+    (h : ∀ seed bits, bits % 2 = 0 → gen seed bits = gen' seed bits) :
+    keypairStep table n gen = keypairStep table n gen' :=
+  keypair_gen_supported_only table n gen gen' fun seed bits hb =>
+    h seed bits (by simp only [keypairSizeOk, Bool.and_eq_true, beq_iff_eq] at hb; exact hb.1)
 
 /-- a product of two numbers of `k` bits has `2k - 1` or `2k` bits: never `2k + 1`, which is why
 `generate_key(2k + 1)` (primes of `(2k + 1) / 2 = k` bits, loop until the product has `2k + 1`
@@ -231,6 +256,38 @@ theorem product_size_never_odd (k p q : Nat) (hp : p < 2 ^ k) (hq : q < 2 ^ k) :
     p * q < 2 ^ (2 * k) := by
   calc p * q < 2 ^ k * 2 ^ k := Nat.mul_lt_mul'' hp hq
     _ = 2 ^ (2 * k) := by rw [← Nat.pow_add]; congr 1; omega
+
+/-- Why `generate_key(bits)` cannot return for EVEN `bits = 2*(8m+r)` with `3 ≤ r`:
+`generate_prime(8m+r)` draws only `8m` random bits and sets bit `8m+r-1`, so (with generous slack
+`3·2^(8m-1)` for the "+31 - p%30" alignment and the prime search) both primes are below
+`2^(8m+r-1) + 3·2^(8m-1)`, and then the product has at most `bits - 1` bits.
+(Companion of C06.product_size_never_odd, which covers odd `bits` only.) -/
+theorem product_size_never_reached (m r p q : ℕ) (hm : 1 ≤ m) (hr : 3 ≤ r)
+    (hp : p < 2 ^ (8 * m + r - 1) + 3 * 2 ^ (8 * m - 1))
+    (hq : q < 2 ^ (8 * m + r - 1) + 3 * 2 ^ (8 * m - 1)) :
+    p * q < 2 ^ (2 * (8 * m + r) - 1) := by
+  obtain ⟨k, rfl⟩ : ∃ k, m = k + 1 := ⟨m - 1, by omega⟩
+  obtain ⟨s, rfl⟩ : ∃ s, r = s + 3 := ⟨r - 3, by omega⟩
+  set A := 2 ^ (8 * k + 7) with hA
+  set T := 2 ^ s with hT
+  have e1 : 2 ^ (8 * (k + 1) + (s + 3) - 1) = 8 * T * A := by
+    rw [hA, hT, show 8 * (k + 1) + (s + 3) - 1 = 3 + s + (8 * k + 7) by omega, pow_add, pow_add]; norm_num
+  have e2 : 2 ^ (8 * (k + 1) - 1) = A := by rw [hA]; congr 1
+  have e3 : 2 ^ (2 * (8 * (k + 1) + (s + 3)) - 1) = 128 * T * T * (A * A) := by
+    rw [hA, hT, show 2 * (8 * (k + 1) + (s + 3)) - 1 = 7 + s + s + ((8 * k + 7) + (8 * k + 7)) by omega]
+    rw [pow_add, pow_add, pow_add, pow_add]; norm_num
+  rw [e1, e2] at hp hq
+  rw [e3]
+  have hT1 : 1 ≤ T := Nat.one_le_two_pow
+  have hA1 : 1 ≤ A := Nat.one_le_two_pow
+  have hp' : p < (8 * T + 3) * A := by nlinarith
+  have hq' : q < (8 * T + 3) * A := by nlinarith
+  calc p * q < ((8 * T + 3) * A) * ((8 * T + 3) * A) := Nat.mul_lt_mul'' hp' hq'
+    _ ≤ 128 * T * T * (A * A) := by
+        have : (8 * T + 3) * (8 * T + 3) ≤ 128 * T * T := by nlinarith
+        calc ((8 * T + 3) * A) * ((8 * T + 3) * A) = (8 * T + 3) * (8 * T + 3) * (A * A) := by ring
+          _ ≤ 128 * T * T * (A * A) := Nat.mul_le_mul_right _ this
+
 
 /-- soundness: whatever the table and the oracle, a key is flagged only together with two
 factors whose product is `n`, and an unflagged key gets no factors. -/
@@ -350,11 +407,15 @@ example : hexUpper 48879 = "BEEF".toList := by decide +kernel
 -- the docstring example of storage.py: metadata 1e04081c02 ↦ seed 1e000000 08 00…00 02 000000
 example : seedFromMeta [0x1e, 4, 8, 0x1c, 2] =
     .ok ([0x1e, 0, 0, 0, 8] ++ List.replicate 23 0 ++ [2, 0, 0, 0]) := by decide +kernel
-example : keypairStep [(2 ^ 63, [7])] (2 ^ 63 * 2 ^ 10) (fun _ _ => (2 ^ 63, 2 ^ 10)) =
-    .ok (true, [2 ^ 63, 2 ^ 10]) := by decide +kernel
--- odd size (75 bits): not flagged although the oracle's product is `n`
+example : keypairStep [(2 ^ 63, [7])] (2 ^ 63 * 2 ^ 16) (fun _ _ => (2 ^ 63, 2 ^ 16)) =
+    .ok (true, [2 ^ 63, 2 ^ 16]) := by decide +kernel
+-- odd size (75 bits): not flagged although the oracle's product is `n`; likewise 78 bits (39 % 8 = 7)
 example : keypairStep [(2 ^ 63, [7])] (2 ^ 63 * 2 ^ 11) (fun _ _ => (2 ^ 63, 2 ^ 11)) =
     .ok (false, []) := by decide +kernel
+example : keypairStep [(2 ^ 63, [7])] (2 ^ 63 * 2 ^ 14) (fun _ _ => (2 ^ 63, 2 ^ 14)) =
+    .ok (false, []) := by decide +kernel
+example : keypairSizeOk 2048 = true ∧ keypairSizeOk 2046 = false ∧ keypairSizeOk 2036 = true ∧
+    keypairSizeOk 2047 = false := by decide
 
 /-! ## EC half: CheckValidECKey, CheckWeakCurve -/
 
